@@ -37,8 +37,8 @@ META = {
     "trusted": ["translator harness/qsym.py, harness/qx.py, harness/qrules.py", "numpy/scipy reference constructions in harness/impl/c58_impl.py"],
 }
 
-HEADER = """From Coq Require Import List ZArith QArith Reals Bool.
-From PLV Require Import Alg.Poly Lin.Vec Lin.PVec Props.C58.
+HEADER = """From Coq Require Import List ZArith QArith Bool.
+From PLV Require Import Alg.Poly Lin.Vec Lin.PVec.
 Import ListNotations.
 Open Scope Q_scope.
 """
@@ -86,8 +86,12 @@ def qrom_terms(t):
 
 
 def run(ctx):
+    ph = {}
+    t0 = time.time()
     ctx.coq_props()
+    ph["coq_props"] = round(time.time() - t0, 1); t0 = time.time()
     out = ctx.run_impl("c58_impl.py", {"tier": ctx.tier, "seed": ctx.seed, "outdir": str(ctx.gen_dir), "parts": "ABC"}, timeout=3000)
+    ph["impl"] = round(time.time() - t0, 1); t0 = time.time()
     # ------------------------------------------------------------------ C: numeric differential results
     results = out["results"]
     per, perbad = {}, {}
@@ -106,6 +110,9 @@ def run(ctx):
                               what=f"{r['template']}: {route} deviates from the documented operator by {e:.3g} (tolerance {r['tol']:.1g})")
     # ------------------------------------------------------------------ A: correspondence of the discrete models
     traces = out["traces"]
+    for te in out.get("trace_errors", []):
+        ctx.violation(f"route-error:{te['template']}:{te['route']}", {"template": te["template"], "route": te["route"], "case": te["case"], "error": te["error"]},
+                      what=f"{te['template']}: {te['route']} raises on a valid input ({te['error'][:80]})")
     terms, owners = [], []
     for t in traces:
         if t["kind"] == "qrom":
@@ -114,34 +121,44 @@ def run(ctx):
         else:
             terms.append(trace_term(t)); owners.append(t)
     bad = ctx.coq_eval_cases("cases", "From PLV Require Import Disc.TemplatesModel.", terms, "check_case", chunk=120)
-    for i in bad:
-        t = owners[i]
-        ctx.violation("corr:" + json.dumps({k: v for k, v in t.items() if k not in ("loaded",)}, sort_keys=True)[:400], {"trace": t, "gallina": terms[i][:2000]},
-                      what=f"{t['kind']} ({t['route']}): the implementation's emitted control structure differs from the verified model")
-    # direct oracles on the traces (the property's own statement, no model)
-    for t in traces:
+    ph["coq_cases"] = round(time.time() - t0, 1); t0 = time.time()
+    def direct_fail(t):
+        """the property's own statement evaluated on the trace (no model); None = fine, else description"""
         if t["kind"] == "permute" and not t["realises"]:
-            ctx.violation("permute-direct:" + json.dumps([t["wires"], t["perm"], t["route"]]), {"trace": t}, what="Permute: emitted SWAPs do not realise the permutation")
+            return "Permute: emitted SWAPs do not realise the permutation"
         if t["kind"] == "select":
             want = [[bool((k >> (t["c"] - 1 - j)) & 1) for j in range(t["c"])] for k in range(t["K"])]
             if t["states"] != want or t["op_index"] != list(range(t["K"])):
-                ctx.violation("select-direct:" + json.dumps([t["c"], t["K"], t["route"]]), {"trace": t, "expected_states": want},
-                              what="Select: control values of the emitted branches are not the big-endian encodings of the operator indices")
+                return "Select: control values of the emitted branches are not the big-endian encodings of the operator indices"
         if t["kind"] == "ctrlseq" and (t["exps"] != [2 ** (t["n"] - 1 - i) for i in range(t["n"])] or not t["control_order_ok"]):
-            ctx.violation("ctrlseq-direct:" + json.dumps([t["n"], t["route"]]), {"trace": t}, what="ControlledSequence: power on control i is not 2^(n-1-i)")
+            return "ControlledSequence: power on control i is not 2^(n-1-i)"
         if t["kind"] == "flipsign":
             s = int("".join("1" if b else "0" for b in t["state"]), 2)
             if not t["diag_ok"] or t["signs"] != [k == s for k in range(2 ** len(t["state"]))]:
-                ctx.violation("flipsign-direct:" + json.dumps([t["state"], t["route"]]), {"trace": t}, what="FlipSign: sign pattern is not -1 exactly on the marked state")
-        if t["kind"] == "qrom":
-            if t["loaded"] is not None:
-                m = len(t["data"])
-                if any(t["loaded"][k] != t["data"][k] for k in range(m)) or not t["sel_ctrl_is_prefix"]:
-                    ctx.violation("qrom-direct:" + json.dumps([t["c"], t["b"], t["depth"], t["data"]]), {"trace": t}, what="QROM: loaded bitstring differs from data[k]")
+                return "FlipSign: sign pattern is not -1 exactly on the marked state"
+        if t["kind"] == "qrom" and t["loaded"] is not None:
+            m = len(t["data"])
+            if any(t["loaded"][k] != t["data"][k] for k in range(m)) or not t["sel_ctrl_is_prefix"]:
+                return "QROM: loaded bitstring differs from data[k]"
+        return None
+    for i in bad:
+        t = owners[i]
+        df = direct_fail(t)
+        # a structural difference that still realises the documented operator is reported as a broken tie without failing input
+        ctx.violation("corr:" + json.dumps({k: v for k, v in t.items() if k not in ("loaded",)}, sort_keys=True)[:400], {"trace": t, "gallina": terms[i][:2000], "direct_oracle": df},
+                      found_input=df is not None,
+                      what=f"{t['kind']} ({t['route']}): the implementation's emitted control structure differs from the verified model" + (f"; {df}" if df else " (the emitted circuit still passes the direct oracle)"))
+    # direct oracles on the traces (the property's own statement, no model)
+    for t in traces:
+        df = direct_fail(t)
+        if df:
+            ctx.violation(f"{t['kind']}-direct:" + json.dumps({k: v for k, v in t.items() if k in ("wires", "perm", "route", "c", "K", "n", "state", "b", "depth", "data")}, sort_keys=True)[:300],
+                          {"trace": t}, what=df)
     # ------------------------------------------------------------------ B: generated exact obligations
     obl = json.loads((ctx.gen_dir / "obligations.json").read_text())
     lem = [(o["name"], o["stmt"], "vm_compute. reflexivity.") for o in obl]
     failed = ctx.coq_obligations("templates", HEADER, lem, chunk=8, timeout=1500, par=16)
+    ph["coq_obligations"] = round(time.time() - t0, 1)
     by_name = {o["name"]: o for o in obl}
     for name, detail in failed:
         o = by_name.get(name.replace("_file", ""))
@@ -179,7 +196,7 @@ def run(ctx):
         "trace_cases": kinds, "generated_obligations": len(obl), "failed_obligations": len(failed), "extraction_status": hist,
         "obligation_labels": sorted({o["label"].split("[")[0] for o in obl}),
         "angle_solver_failures_counted_not_judged": out.get("solver_fails", [])[:5],
-        "impl_wall_s": out["wall"],
+        "impl_wall_s": out["wall"], "phase_wall_s": ph,
         "input_distribution": {"wires": "random labels (ints/strings) or range(n), 1-9 wires", "angles": "uniform in [-3.1, 3.1] and special values",
                                "hamiltonians": "2-4 distinct random Pauli words, coefficients uniform +-[0.1,1] (numeric) / small rationals (exact)",
                                "tables": "random bitstrings 1-3 bits, 1-8 entries"},
